@@ -259,19 +259,23 @@ def rule_TR4(rep, prog, ex, q, ts):
         rep.saw(fn)
         mine = [t for t in ts if t.fn is fn]
         # identify the loop(s) whose guards mention the flags argument bit MAKE_DIRTY
+        def md_known_clear(notes):
+            return any((("& %s) eq 0" % hex(q.MAKE_DIRTY)) in n) or ("& 2) eq 0" in n) for n in notes)
+        def md_known_set(notes):
+            return any((("& %s) ne 0" % hex(q.MAKE_DIRTY)) in n) or ("& 2) ne 0" in n) for n in notes)
         for t in mine:
             if isinstance(t, trans.GiveUp):
-                md = any(("& %s) ne 0" % hex(q.MAKE_DIRTY)) in n or ("& 2) ne 0" in n) for n in t.old.notes)
-                if md:
+                if not md_known_clear(t.old.notes):
                     rep.violation(rid, t.site.loc, name, "wakeup-giveup-with-MAKE_DIRTY:%s" % name,
-                                  "%s: the CAS loop gives up on a path where flags has MAKE_DIRTY: DIRTY is not published" % name,
+                                  "%s: the CAS loop gives up on a path where flags may have MAKE_DIRTY: DIRTY is not published" % name,
                                   {"guards": t.old.notes})
                 continue
-            md = any(("& %s) ne 0" % hex(q.MAKE_DIRTY)) in n or ("& 2) ne 0" in n) for n in t.old.notes)
+            md = not md_known_clear(t.old.notes)
             if md:
                 ok = t.sets(q.DIRTY) and ord_has_release(t.order)
                 rep.require(rid, ok, t.where, name, "wakeup-make-dirty:%s" % name,
-                            "%s: a MAKE_DIRTY wakeup commits a state without DIRTY or without release ordering (order %s)" % (name, t.order),
+                            "%s: a wakeup whose flags may contain MAKE_DIRTY commits a state without DIRTY or without release ordering (order %s): the "
+                            "enqueuer's item is invisible to a drainer that is unlocking concurrently" % (name, t.order),
                             sample={"fn": name, "guards": t.old.notes[-3:], "new": repr(t.new)})
             if name == "_dispatch_queue_wakeup" and md:
                 idle = (t.old.uhi < q.NEEDS_ACTIVATION) and (t.old.k0 & q.OWNER) == q.OWNER and \
